@@ -201,12 +201,16 @@ def copy_traits_case(case):
         o.scratch = 99
         o.count = 5
         for how, make in (("clone_traits()", lambda: o.clone_traits()), ("clone_traits(copy='deep')", lambda: o.clone_traits(copy="deep")),
-                          ("copy.deepcopy", lambda: copy.deepcopy(o)), ("pickle", lambda: pickle.loads(pickle.dumps(o)))):
+                          ("copy.deepcopy", lambda: copy.deepcopy(o)), ("pickle", None), ("copy.copy", lambda: copy.copy(o))):
+            if how == "pickle":
+                try:
+                    blob = pickle.dumps(o)
+                except Exception:
+                    continue          # dynamically created classes may not pickle: not what is probed here
+                make = lambda blob=blob: pickle.loads(blob)
             try:
                 n = make()
             except Exception as e:
-                if how == "pickle":
-                    continue          # dynamically created classes may not pickle: not what is probed here
                 violated.append("%s / %s raised %r" % (order, how, e))
                 continue
             w = "%s / %s" % (order, how)
@@ -222,7 +226,7 @@ def copy_traits_case(case):
                 violated.append("%s: prototype / delegate target not carried over (style=%r)" % (w, n.style))
             if n.scratch != 7:
                 violated.append("%s: transient trait is %r, default is 7" % (w, n.scratch))
-            if how != "clone_traits()" and (n.items is o.items or n.table is o.table or n.style is o.style):
+            if how not in ("clone_traits()", "copy.copy") and (n.items is o.items or n.table is o.table or n.style is o.style):
                 violated.append("%s: a mutable value is shared with the original" % w)
             if n.items is o.items:
                 violated.append("%s: the list object itself is shared" % w)
